@@ -1,0 +1,44 @@
+//go:build verif
+
+package port
+
+import "sync/atomic"
+
+// Yield sites inside InPort.Open / OutPort.Open (see the verifYield calls).
+const (
+	VerifSiteOpenAfterStatus       = 11 // after the process status check, before looking into the map
+	VerifSiteOpenBeforeAddExitHook = 12 // endpoint inserted and port unlocked, before AddExitHook
+)
+
+var verifYieldHook atomic.Pointer[func(site int)]
+
+// VerifSetYield installs (or, with nil, removes) the function called at the yield sites of Open.
+// Built only with the "verif" tag; verification harnesses use it to interleave goroutines
+// deterministically.
+func VerifSetYield(f func(site int)) {
+	if f == nil {
+		verifYieldHook.Store(nil)
+		return
+	}
+	verifYieldHook.Store(&f)
+}
+
+func verifYield(site int) {
+	if f := verifYieldHook.Load(); f != nil {
+		(*f)(site)
+	}
+}
+
+// VerifReaders returns len(readers).
+func (p *InPort) VerifReaders() int {
+	p.mu.RLock()
+	defer p.mu.RUnlock()
+	return len(p.readers)
+}
+
+// VerifWriters returns len(writers).
+func (p *OutPort) VerifWriters() int {
+	p.mu.RLock()
+	defer p.mu.RUnlock()
+	return len(p.writers)
+}
